@@ -50,6 +50,8 @@ structure Sys (P : Type) where
   armed : Nat → Bool                     -- armed faults
   msl : Nat                              -- max_spiral_loops
   noStore : Nat → Bool                   -- variables that are not cached (drop / blacklist)
+  ckey : Nat → P → P                     -- the period a value is stored under (ETERNITY for an
+                                         -- eternal variable, the period itself otherwise)
 
 abbrev Node (P : Type) := Nat × P
 
@@ -119,11 +121,14 @@ def markSpiral (v : Nat) : Nat → List (Node P) → List (Node P)
 def store (sys : Sys P) (c : Cache P) (k : Node P) (x : Val) (g : Bool) : Cache P :=
   if sys.noStore k.1 then c else (k, (x, g)) :: c
 
+/-- the cache slot of a node: `Holder.get_array` / `put_in_cache` go through the storage key -/
+def Sys.slot (sys : Sys P) (k : Node P) : Node P := (k.1, sys.ckey k.1 k.2)
+
 mutual
 def run (sys : Sys P) : Nat → St P → Nat → P → Option (Res × Bool × St P)
   | 0, _, _, _ => none
   | n+1, s, v, p =>
-    match lookup s.cache (v, p) with
+    match lookup s.cache (sys.slot (v, p)) with
     | some (x, g) =>
       -- (F-C02a repair) reading an entry already marked for deletion marks every frame
       let s' := if (v, p) ∈ s.inval then { s with inval := s.stack ++ s.inval } else s
@@ -141,14 +146,14 @@ def run (sys : Sys P) : Nat → St P → Nat → P → Option (Res × Bool × St
         match sys.formula v p with
         | none =>
           let x := sys.post v (sys.dflt v)
-          some (.ok x, false, { s with cache := store sys s.cache (v, p) x false })
+          some (.ok x, false, { s with cache := store sys s.cache (sys.slot (v, p)) x false })
         | some e =>
           match runE sys n { s with stack := (v, p) :: s.stack } e with
           | none => none
           | some (.error er, g, s') => some (.error er, g, { s' with stack := s'.stack.tail })
           | some (.ok x, g, s') =>
             some (.ok (sys.post v x), g,
-              { s' with cache := store sys s'.cache (v, p) (sys.post v x) g, stack := s'.stack.tail })
+              { s' with cache := store sys s'.cache (sys.slot (v, p)) (sys.post v x) g, stack := s'.stack.tail })
 def runE (sys : Sys P) : Nat → St P → Expr P → Option (Res × Bool × St P)
   | _, s, .const k => some (.ok k, false, s)
   | _, s, .bad => some (.error .fault, false, s)
@@ -170,15 +175,16 @@ def runE (sys : Sys P) : Nat → St P → Expr P → Option (Res × Bool × St P
       | some (.ok y, g2, s2) => some (.ok (sys.f2 o x y), g1 || g2, s2)
 end
 
-/-- `purge_cache_of_invalid_values`, at the end of a top-level request -/
-def purge (s : St P) : St P :=
-  { cache := s.cache.filter (fun e => !(s.inval.contains e.1)), stack := s.stack, inval := [] }
+/-- `purge_cache_of_invalid_values`, at the end of a top-level request: `holder.delete_arrays`
+    of every marked (variable, period) deletes its storage slot -/
+def purge (sys : Sys P) (s : St P) : St P :=
+  { cache := s.cache.filter (fun e => !((s.inval.map sys.slot).contains e.1)), stack := s.stack, inval := [] }
 
 /-- a top-level `Simulation.calculate`: run, then purge when the stack is empty -/
 def request (sys : Sys P) (fuel : Nat) (s : St P) (k : Node P) : Option (Res × Bool × St P) :=
   match run sys fuel s k.1 k.2 with
   | none => none
-  | some (r, g, s') => some (r, g, if s'.stack = [] then purge s' else s')
+  | some (r, g, s') => some (r, g, if s'.stack = [] then purge sys s' else s')
 
 /-- a sequence of top-level requests (errors do not stop the sequence) -/
 def requests (sys : Sys P) (fuel : Nat) : St P → List (Node P) → Option (List Res × St P)
